@@ -1,4 +1,6 @@
 import Model.Bls
+import Model.HashToCurve
+import Extracted.Consts
 
 /-! Line-protocol front end for the BLS12-381 model. -/
 
@@ -50,6 +52,34 @@ def e2Dec (args : List String) : String :=
 def parseNat? (s : String) : Option Nat :=
   if s.startsWith "0x" then (unhex? (let h := (s.drop 2).toString; if h.length % 2 = 1 then "0" ++ h else h)).map beNat
   else s.toNat?
+
+/-- `h2c.map <128 bytes>`: the point `map_to_G1` computes, compressed -/
+def h2cMap (args : List String) : String :=
+  match args with
+  | [h] => match parseBytes? h with
+    | some h => if h.length = 128 then okHex (writeE1 (H2C.mapToG1 h)) else "err"
+    | none => "bad-op"
+  | _ => "bad-op"
+
+/-- `bls.signmsg <sk> <tag> <msg>`: `Sign(msg, NewExpandMsgXOFKMAC128(tag))` from the message: KMAC128 expand-message
+    keyed with `tag ‖ signature suite` (the suite string is regenerated from the source), hash-to-curve, scalar
+    multiplication, compression -/
+def signMsg (args : List String) : String :=
+  match args with
+  | [k, tag, msg] => match parseNat? k, parseBytes? tag, parseBytes? msg with
+    | some k, some tag, some msg =>
+      okHex (H2C.sign Extracted.Consts.crypto_blsSigCipherSuite.toUTF8.toList (k % r) tag msg)
+    | _, _, _ => "bad-op"
+  | _ => "bad-op"
+
+/-- `pop.gen <sk>`: `BLSGeneratePOP`: the signature of the public key bytes under the PoP suite (empty tag) -/
+def popGen (args : List String) : String :=
+  match args with
+  | [k] => match parseNat? k with
+    | some k =>
+      okHex (H2C.sign Extracted.Consts.crypto_blsPOPCipherSuite.toUTF8.toList (k % r) [] (writeE2 (publicKeyOf (k % r))))
+    | none => "bad-op"
+  | _ => "bad-op"
 
 /-- `pk.of <sk>`: public key bytes of a scalar -/
 def pkOf (args : List String) : String :=
